@@ -493,3 +493,108 @@ mod store_history {
         assert!(first.is_ok(), "recovery write fails on a reachable image: the hash is wedged in Pending");
     }
 }
+
+/// History replay of the REAL `PayPaymentProvider::wait_payment` against a scripted node.
+#[cfg(all(test, feature = "verif"))]
+mod waitpay_history {
+    use std::sync::{Arc, Mutex};
+
+    use async_trait::async_trait;
+    use cln_rpc::model::{
+        requests::{
+            DatastoreRequest, ListdatastoreRequest, ListsendpaysRequest, ListsendpaysStatus,
+            PayRequest, WaitsendpayRequest,
+        },
+        responses::{
+            DatastoreResponse, GetinfoResponse, ListdatastoreResponse, ListsendpaysResponse,
+            PayResponse, WaitsendpayResponse,
+        },
+    };
+    use secp256k1::hashes::{sha256, Hash};
+
+    use crate::{
+        payment_provider::{PayPaymentProvider, PaymentProvider},
+        rpc::{ClnRpc, RpcError},
+    };
+
+    #[derive(Clone, Copy, PartialEq, Debug)]
+    enum Part {
+        Pending,
+        Complete,
+    }
+
+    /// One outgoing part. It completes right after the node has served the FIRST of the two
+    /// `listsendpays` calls, whichever that is -- an interleaving the node is free to produce.
+    struct Node {
+        part: Mutex<Part>,
+        served: Mutex<usize>,
+        preimage: [u8; 32],
+    }
+
+    fn payment(status: &str, preimage: Option<&[u8; 32]>, hash: &sha256::Hash) -> serde_json::Value {
+        let mut v = serde_json::json!({
+            "created_index": 1, "id": 1, "groupid": 1, "partid": 0,
+            "payment_hash": hash.to_string(), "status": status,
+            "amount_sent_msat": 1000, "created_at": 1,
+        });
+        if let Some(p) = preimage {
+            v["payment_preimage"] = serde_json::Value::String(hex::encode(p));
+        }
+        v
+    }
+
+    #[async_trait]
+    impl ClnRpc for Node {
+        async fn datastore(&self, _: &DatastoreRequest) -> Result<DatastoreResponse, RpcError> { unimplemented!() }
+        async fn get_info(&self) -> Result<GetinfoResponse, RpcError> { unimplemented!() }
+        async fn listdatastore(&self, _: &ListdatastoreRequest) -> Result<ListdatastoreResponse, RpcError> { unimplemented!() }
+        async fn pay(&self, _: &PayRequest) -> Result<PayResponse, RpcError> { unimplemented!() }
+        async fn listsendpays(&self, request: &ListsendpaysRequest) -> Result<ListsendpaysResponse, RpcError> {
+            let hash = request.payment_hash.unwrap();
+            let state = *self.part.lock().unwrap();
+            let want = match request.status {
+                Some(ListsendpaysStatus::PENDING) => Part::Pending,
+                Some(ListsendpaysStatus::COMPLETE) => Part::Complete,
+                _ => unreachable!(),
+            };
+            let payments: Vec<serde_json::Value> = if state == want {
+                match state {
+                    Part::Pending => vec![payment("pending", None, &hash)],
+                    Part::Complete => vec![payment("complete", Some(&self.preimage), &hash)],
+                }
+            } else {
+                vec![]
+            };
+            let mut served = self.served.lock().unwrap();
+            *served += 1;
+            if *served == 1 {
+                // the part completes between the two listings
+                *self.part.lock().unwrap() = Part::Complete;
+            }
+            Ok(serde_json::from_value(serde_json::json!({ "payments": payments })).unwrap())
+        }
+        async fn waitsendpay(&self, request: WaitsendpayRequest) -> Result<WaitsendpayResponse, RpcError> {
+            Ok(serde_json::from_value(serde_json::json!({
+                "created_index": 1, "id": 1, "groupid": 1, "partid": 0,
+                "payment_hash": request.payment_hash.to_string(), "status": "complete",
+                "amount_sent_msat": 1000, "created_at": 1,
+                "payment_preimage": hex::encode(self.preimage),
+            }))
+            .unwrap())
+        }
+    }
+
+    /// C15 (D5): a part that completes between the two listings must not be reported as
+    /// "no payment".
+    #[tokio::test]
+    async fn verif_history_c15_part_completes_between_listings() {
+        let preimage = [9u8; 32];
+        let node = Arc::new(Node { part: Mutex::new(Part::Pending), served: Mutex::new(0), preimage });
+        let provider = PayPaymentProvider::new(Arc::clone(&node), std::time::Duration::from_secs(60), false);
+        let r = provider.wait_payment(sha256::Hash::hash(&preimage)).await;
+        println!("HISTORY c15_part_completes_between_listings result={:?} node_part={:?}",
+            r.as_ref().map(|o| o.as_ref().map(hex::encode)).map_err(|e| e.to_string()), node.part.lock().unwrap());
+        assert_eq!(r.unwrap(), Some(preimage.to_vec()),
+            "wait_payment reported no payment although a part is complete");
+    }
+}
